@@ -261,10 +261,11 @@ func (e *dispEvents) take() []dispEvent {
 const dispNPeers = 3
 
 type dispWorld struct {
-	l     *spine.DeviceLocal
-	peers [dispNPeers + 1]*dispPeer
-	rem   []dispRemFeat
-	cfg   []string // the loc / rem lines of the model configuration
+	l      *spine.DeviceLocal
+	peers  [dispNPeers + 1]*dispPeer
+	closed []dispClosed // writers of removed connections
+	rem    []dispRemFeat
+	cfg    []string // the loc / rem lines of the model configuration
 }
 
 func dispEnt(e []uint) []model.AddressEntityType { return spine.NewAddressEntityType(e) }
@@ -444,6 +445,13 @@ func (w *dispWorld) connect(p int, devOf int) string {
 func (w *dispWorld) drop(p int) {
 	w.l.RemoveRemoteDeviceConnection(w.peers[p].ski)
 	w.peers[p].rd = nil
+	// every connection has its own recording writer; a removed connection's writer is kept and watched
+	w.closed = append(w.closed, dispClosed{p, w.peers[p].w})
+}
+
+type dispClosed struct {
+	p int
+	w *h.W
 }
 
 // digest of all local function data, through the public API
@@ -588,16 +596,17 @@ func (f dispFlags) String() string {
 }
 
 type dispRun struct {
-	r      *h.Report
-	d      *h.Driver // nil: no model comparison (probes)
-	fl     dispFlags
-	ev     *dispEvents
-	base   int
-	w      *dispWorld
-	spec   *dispSpec
-	done   []string
-	failed bool // a mismatch ended the history
-	ctr    uint64
+	r        *h.Report
+	d        *h.Driver // nil: no model comparison (probes)
+	fl       dispFlags
+	ev       *dispEvents
+	base     int
+	w        *dispWorld
+	spec     *dispSpec
+	done     []string
+	failed   bool // the history cannot go on (the model driver refused the configuration)
+	diverged bool // a mismatch happened: monitor-only from there
+	ctr      uint64
 	// abstract data values: the model names a value by the operation that set it (value id); the harness records the
 	// digest the data had right after that operation and interns digests, so that both sides print the same token
 	valSeq    int
@@ -609,6 +618,7 @@ type dispRun struct {
 
 type dispStats struct {
 	writes, writesOK, writesUnauth, writesEngineRej, binds, bindsOK, unbinds, unbindsOK, subsOK, unsubsOK, notifies, deniedWithSubs int
+	fulls, fullsReplace, writeAfterFull, writesFeInconsistent                                                                       int
 	reanns, unbindAfterReann, writeAfterUnbind, writesFromRelative                                                                  int
 	covered                                                                                                                         map[string]bool // classifier:function pairs of registered functions that were visited
 }
@@ -634,6 +644,14 @@ func dispEntP(s string) []uint {
 	return ent
 }
 
+// mismatch: the real code and the model disagree on this step. The tie is broken from here on: the rest of the history
+// is still executed and judged by the SPEC monitors (which never read the model), but no longer compared.
+func (x *dispRun) mismatch(impl, want, op string) {
+	x.r.Mismatch(x.done, impl, want, "dispatch op "+op)
+	x.diverged = true
+	x.d = nil
+}
+
 func (x *dispRun) fail(key string, detail string) {
 	x.r.SpecFail(key, x.done, detail)
 }
@@ -651,6 +669,17 @@ func (x *dispRun) traces() [dispNPeers + 1][]dispOut {
 				x.w.peers[p].readReqs = append(x.w.peers[p].readReqs, o.ctr)
 			}
 			t[p] = append(t[p], o)
+		}
+	}
+	// nothing may be written to a removed connection; a reply or result found there is a response the live connection
+	// did not get ("no fewer") - and C10's "no further datagram to the removed connection"
+	for _, c := range x.w.closed {
+		for _, m := range c.w.Take() {
+			o := dispParseOut(m)
+			x.fail("C10/datagram-to-removed-connection", fmt.Sprintf("a removed connection of peer %d was written to: %s", c.p, o))
+			if o.isResponse() {
+				x.fail("C01/response-on-removed-connection", fmt.Sprintf("a removed connection of peer %d received %s; the response belongs on the peer's current connection", c.p, o))
+			}
 		}
 	}
 	return t
@@ -885,6 +914,8 @@ func (x *dispRun) exec(op string) bool {
 		return x.execDg(op, f, p)
 	case "reann":
 		return x.execReann(op, f, p)
+	case "full":
+		return x.execFull(op, f, p)
 	case "bind", "unbind", "sub", "unsub":
 		return x.execCall(op, f, p)
 	case "entrem", "entadd":
@@ -900,8 +931,7 @@ func (x *dispRun) compare(op, line, impl, kind string) {
 	}
 	want := x.translate(x.d.Ask(line))
 	if impl != want {
-		x.r.Mismatch(x.done, impl, want, "dispatch op "+op)
-		x.failed = true
+		x.mismatch(impl, want, op)
 	}
 }
 
@@ -987,6 +1017,7 @@ func (x *dispRun) execDg(op string, f []string, p int) bool {
 	hasCtr := f[4] != "-" // a request without msgCounter: not well-formed, served by the repaired code
 	refS, clsS, ack := f[5], f[6], f[7] == "1"
 	fn, _ := strconv.Atoi(f[8])
+	fe := 0
 	v, part, bad, noerr, dd := 0, false, false, false, "0"
 	for _, t := range f[9:] {
 		if t == "noerr" {
@@ -994,6 +1025,9 @@ func (x *dispRun) execDg(op string, f []string, p int) bool {
 		}
 		if strings.HasPrefix(t, "dd=") {
 			dd = t[3:] // device part of the destination: - omitted, 9 another device's address
+		}
+		if strings.HasPrefix(t, "fe=") {
+			fe, _ = strconv.Atoi(t[3:]) // the cmd's optional `function` element names this function
 		}
 		if strings.HasPrefix(t, "v=") {
 			v, _ = strconv.Atoi(t[2:])
@@ -1033,6 +1067,11 @@ func (x *dispRun) execDg(op string, f []string, p int) bool {
 	cmd := dispCmd(fn, v, part)
 	if noerr && fn == 900 {
 		cmd.ResultData = &model.ResultDataType{}
+	}
+	if name, ok := dispFnName[fe]; ok && fe != 0 {
+		// wire-legal, possibly inconsistent with the payload field. The payload decides what is read / written, so the
+		// monitors (and the model) judge by the payload's function.
+		cmd.Function = util.Ptr(model.FunctionType(name))
 	}
 	valID := 0
 	if clsS == "write" {
@@ -1306,8 +1345,7 @@ func (x *dispRun) execDg(op string, f []string, p int) bool {
 		}
 		want := x.translate(x.d.Ask(line))
 		if impl != want {
-			x.r.Mismatch(x.done, impl, want, "dispatch op "+op)
-			x.failed = true
+			x.mismatch(impl, want, op)
 		}
 	}
 	return !x.failed
@@ -1378,8 +1416,7 @@ func (x *dispRun) execSetData(op string, f []string) bool {
 	if x.d != nil {
 		want := x.translate(x.d.Ask(fmt.Sprintf("setdata %s %d %d", f[1], fn, valID)))
 		if impl != want {
-			x.r.Mismatch(x.done, impl, want, "dispatch op "+op)
-			x.failed = true
+			x.mismatch(impl, want, op)
 		}
 	}
 	return !x.failed
@@ -1524,8 +1561,7 @@ func (x *dispRun) execCall(op string, f []string, p int) bool {
 	if x.d != nil {
 		want := x.translate(x.d.Ask(op))
 		if impl != want {
-			x.r.Mismatch(x.done, impl, want, "dispatch op "+op)
-			x.failed = true
+			x.mismatch(impl, want, op)
 		}
 	}
 	return !x.failed
@@ -1606,6 +1642,102 @@ func (x *dispRun) specOn(srv string) string {
 	return "[" + strings.Join(l, " ") + "]"
 }
 
+// full p keep ctr ack — a FULL (unfiltered) discovery notification that lists the entities `keep` (comma separated, [0]
+// always among them) with their features: entities it no longer lists are gone (with their bindings and subscriptions),
+// unknown ones are added, known ones stay as they are; a notification that changes nothing is rejected.
+func (x *dispRun) execFull(op string, f []string, p int) bool {
+	w := x.w
+	keep := map[string]bool{}
+	var ents [][]uint
+	for _, e := range strings.Split(f[2], ",") {
+		keep[e] = true
+		ents = append(ents, dispEntP(e))
+	}
+	if !keep["0"] {
+		return false // not listing the device information entity is C05's / C06's subject
+	}
+	x.done = append(x.done, op)
+	ctr, _ := strconv.ParseUint(f[3], 10, 64)
+	ack := f[4] == "1"
+	// SPEC side, from the public tree: what disappears, is anything new
+	removed := map[string]bool{}
+	known := map[string]bool{}
+	for _, e := range w.peers[p].rd.Entities() {
+		k := h.EntStr(e.Address().Entity)
+		known[k] = true
+		if !keep[k] {
+			removed[k] = true
+		}
+	}
+	added := false
+	for k := range keep {
+		if !known[k] {
+			added = true
+		}
+	}
+	before := w.digest()
+	pan := w.inject(p, model.DatagramType{Header: w.nmHeader(p, ctr, model.CmdClassifierTypeNotify, ack), Payload: model.PayloadType{Cmd: []model.CmdType{w.discovery(p, ents, false, nil, true)}}})
+	h.Settle(x.base)
+	x.ev.take()
+	t := x.traces()
+	impl := x.show(t, nil, nil, pan, false)
+	shape := dispShape(t[p])
+	if pan != nil {
+		impl = fmt.Sprintf("%d: panic", p)
+		x.fail("C05/panic-on-well-formed-datagram", fmt.Sprintf("%s: %v", op, pan))
+	} else {
+		if !added && len(removed) == 0 {
+			if shape != "error" {
+				x.fail("C01/rejected-notify-not-one-error", fmt.Sprintf("%s: a full notification that changes nothing is rejected by the handler, responses %q", op, shape))
+			}
+		} else if shape != dispAckShape(ack) {
+			x.fail("C01/accepted-notify-wrong-response", fmt.Sprintf("%s: responses %q", op, shape))
+		}
+		for q := 1; q <= dispNPeers; q++ {
+			for _, o := range t[q] {
+				if q != p && o.isResponse() {
+					x.fail("C01/response-to-other-peer", fmt.Sprintf("%s by peer %d: peer %d received %s", op, p, q, o))
+				}
+				if q == p && o.isResponse() {
+					x.addressing(o, p, ctr, "0/0", "0/0")
+				}
+			}
+		}
+		x.unchanged(before, op)
+	}
+	// SPEC registry: the writer's entity disappeared
+	for pr := range x.spec.binds {
+		if pr.peer == p && removed[dispEntOf(pr.client)] {
+			delete(x.spec.binds, pr)
+		}
+	}
+	for pr := range x.spec.subs {
+		if pr.peer == p && removed[dispEntOf(pr.client)] {
+			delete(x.spec.subs, pr)
+		}
+	}
+	if pan == nil {
+		for k := range removed {
+			if k != "0" && w.peers[p].rd.Entity(dispEnt(dispEntP(k))) != nil {
+				x.fail("C03/entity-not-listed-by-full-announcement-still-known", fmt.Sprintf("%s: entity [%s] of peer %d is no longer announced and still known", op, k, p))
+			}
+		}
+		x.sweep(op)
+	}
+	x.st.fulls++
+	if len(removed) > 0 && added {
+		x.st.fullsReplace++
+	}
+	x.r.Eval("full", "")
+	if x.d != nil {
+		want := x.translate(x.d.Ask(op))
+		if impl != want {
+			x.mismatch(impl, want, op)
+		}
+	}
+	return !x.failed
+}
+
 // reann p ctr ref ack — the peer repeats its discovery reply (every entity announced again, features unchanged): the
 // code re-creates all remote feature objects; bindings and subscriptions stay registered and stay deletable.
 func (x *dispRun) execReann(op string, f []string, p int) bool {
@@ -1650,8 +1782,7 @@ func (x *dispRun) execReann(op string, f []string, p int) bool {
 	if x.d != nil {
 		want := x.translate(x.d.Ask(op))
 		if impl != want {
-			x.r.Mismatch(x.done, impl, want, "dispatch op "+op)
-			x.failed = true
+			x.mismatch(impl, want, op)
 		}
 	}
 	return !x.failed
@@ -1729,8 +1860,7 @@ func (x *dispRun) execEnt(op string, f []string, p int) bool {
 	if x.d != nil {
 		want := x.translate(x.d.Ask(op))
 		if impl != want {
-			x.r.Mismatch(x.done, impl, want, "dispatch op "+op)
-			x.failed = true
+			x.mismatch(impl, want, op)
 		}
 	}
 	return !x.failed
@@ -1748,7 +1878,7 @@ func (x *dispRun) finish() {
 	}
 	h.Settle(x.base)
 	x.ev.take()
-	if !x.failed {
+	if !x.failed && !x.diverged {
 		x.r.Traces++
 	}
 }
@@ -1828,6 +1958,33 @@ func dispWitnessReann() []string {
 		"unbind 1 2/2 2/2 112 1", "dg 1 2/2 2/2 113 - write 1 " + lim + " v=6", "reann 1 114 3 0", "reann 1 115 9 1"}
 }
 
+// a full notification that REPLACES the holder's entity (same number of entities), writes from the vanished entity's
+// feature right away and after it is announced again; a full notification that changes nothing
+func dispWitnessFull() []string {
+	lim := strconv.Itoa(dispFnID[dispFnLimit])
+	lc := strconv.Itoa(dispTypeID[model.FeatureTypeTypeLoadControl])
+	return []string{dispWorldFixed, "conn 1", "full 1 0,1,2 100 1", "bind 1 1/1 1/1 " + lc + " 101 1", "sub 1 1/1 1/1 " + lc + " 102 1", "dg 1 1/1 1/1 103 - write 1 " + lim + " v=3",
+		"full 1 0,1,2 104 1", "full 1 0,2,1.1 105 1", "dg 1 1/1 1/1 106 - write 1 " + lim + " v=4", "full 1 0,1,2,1.1 107 0", "dg 1 1/1 1/1 108 - write 1 " + lim + " v=5",
+		"bind 1 1/1 1/1 " + lc + " 109 1", "full 1 0,1 110 1", "dg 1 1/1 1/1 111 - write 1 " + lim + " v=6"}
+}
+
+// the cmd's `function` element names a writable function, the payload is a read-only one of the same feature (and
+// the reverse): what is written decides
+func dispWitnessFunctionElement() []string {
+	lim, desc := strconv.Itoa(dispFnID[dispFnLimit]), strconv.Itoa(dispFnID["loadControlLimitDescriptionListData"])
+	lc := strconv.Itoa(dispTypeID[model.FeatureTypeTypeLoadControl])
+	return []string{dispWorldFixed, "conn 1", "conn 2", "sub 2 1/1 1/1 " + lc + " 100 0", "bind 1 1/1 1/1 " + lc + " 101 1",
+		"dg 1 1/1 1/1 102 - write 1 " + desc + " fe=" + lim, "dg 1 1/1 1/1 103 - write 1 " + lim + " v=3 fe=" + desc, "dg 1 1/1 1/1 104 - read 0 " + desc + " fe=" + lim,
+		"dg 1 1/1 1/1 105 - write 1 " + lim + " v=4 fe=" + lim}
+}
+
+// disconnect and reconnect of the same SKI: every connection has its own writer, responses belong on the current one
+func dispWitnessReconnect() []string {
+	lim := strconv.Itoa(dispFnID[dispFnLimit])
+	return []string{dispWorldFixed, "conn 1", "dg 1 1/1 1/1 101 - read 0 " + lim, "drop 1", "conn 1", "dg 1 1/1 1/1 102 - read 1 " + lim, "dg 1 1/1 7/7 103 - read 0 " + lim,
+		"drop 1", "conn 1", "dg 1 1/1 1/1 104 - read 0 " + lim}
+}
+
 // ---------- generator
 
 var dispOverviewPanics = true
@@ -1881,6 +2038,48 @@ func (g *dispGen) relatives(c string) []string {
 		}
 	}
 	return out
+}
+
+// fullOp: a full discovery notification of peer p. With a bound feature of p at hand mostly a REPLACEMENT: the holder's
+// entity is no longer listed and an entity p does not announce at the moment is (same count where possible); else a
+// random subset (fewer, more, the same: an empty diff).
+func (g *dispGen) fullOp(p int) (op string, dropped *dispPair) {
+	cur := map[string]bool{}
+	for _, e := range g.x.w.peers[p].rd.Entities() {
+		cur[h.EntStr(e.Address().Entity)] = true
+	}
+	var own []dispPair
+	for pr := range g.x.spec.binds {
+		if pr.peer == p && cur[dispEntOf(pr.client)] {
+			own = append(own, pr)
+		}
+	}
+	sort.Slice(own, func(i, j int) bool { return fmt.Sprint(own[i]) < fmt.Sprint(own[j]) })
+	keep := []string{"0"}
+	if len(own) > 0 && g.rng.Intn(10) < 7 {
+		pr := own[g.rng.Intn(len(own))]
+		dropped = &pr
+		gone := dispEntOf(pr.client)
+		var absent []string
+		for _, e := range dispRemEnts {
+			if cur[e] && e != gone {
+				keep = append(keep, e)
+			} else if !cur[e] {
+				absent = append(absent, e)
+			}
+		}
+		if len(absent) > 0 && g.rng.Intn(4) > 0 {
+			keep = append(keep, absent[g.rng.Intn(len(absent))])
+		}
+	} else {
+		for _, e := range dispRemEnts {
+			switch c := g.rng.Intn(10); {
+			case cur[e] && c < 7, !cur[e] && c < 3:
+				keep = append(keep, e)
+			}
+		}
+	}
+	return fmt.Sprintf("full %d %s %d %d", p, strings.Join(keep, ","), g.next(), g.ack()), dropped
 }
 
 // reannOp: the peer announces again what it has announced: the whole tree by a repeated discovery reply, or the entity
@@ -2036,6 +2235,27 @@ func (g *dispGen) writeOp(p int) string {
 				}
 			}
 		}
+		// the optional `function` element: mostly absent; consistent; or naming another function - one of the same
+		// feature with the opposite write flag if there is one (the gate must judge what the payload writes), else any
+		if g.rng.Intn(4) == 0 {
+			fe := fn
+			if g.rng.Intn(3) > 0 {
+				de, df := dispAddr(dst)
+				if lf := g.x.w.l.FeatureByAddress(h.FA(dispLocalDev, de, df)); lf != nil {
+					o, ok := lf.Operations()[model.FunctionType(dispFnName[fn])]
+					if other := g.writableFns(dst, !(ok && o.Write())); len(other) > 0 {
+						fe = other[g.rng.Intn(len(other))]
+					}
+				}
+				if fe == fn || g.rng.Intn(5) == 0 {
+					fe = dispFnID[g.pick([]string{"measurementListData", "setpointListData", dispFnLimit, "loadControlLimitDescriptionListData"})]
+				}
+			}
+			if fe != fn {
+				g.x.st.writesFeInconsistent++
+			}
+			extra += fmt.Sprintf(" fe=%d", fe)
+		}
 		return fmt.Sprintf("dg %d %s %s %d %s write %d %d%s", p, src, dst, g.next(), ref, g.ack(), fn, extra)
 	}
 	anyFn := func(server string) int {
@@ -2158,6 +2378,14 @@ func (g *dispGen) anyOp(p int) string {
 	if fn == 900 && g.rng.Intn(10) == 0 {
 		extra += " noerr"
 	}
+	if g.rng.Intn(8) == 0 {
+		// a `function` element on any classifier: consistent, or naming some other function
+		fe := fn
+		if g.rng.Intn(2) == 0 {
+			fe = dispFnID[g.pick([]string{"measurementListData", "setpointListData", dispFnLimit, "loadControlLimitDescriptionListData", "nodeManagementUseCaseData"})]
+		}
+		extra += fmt.Sprintf(" fe=%d", fe)
+	}
 	if g.rng.Intn(16) == 0 {
 		extra += g.pick([]string{" dd=-", " dd=9"})
 	}
@@ -2255,7 +2483,27 @@ func (env *dispEnv) history(rng interface{ Intn(int) int }, n int, c03 bool) *di
 			x.exec(g.setOp())
 		case c < wShare+37:
 			x.exec(g.reannOp(p, g.pick(dispRemEnts)))
-		case c < wShare+40:
+		case c < wShare+41:
+			fop, dropped := g.fullOp(p)
+			x.exec(fop)
+			if dropped != nil && x.w.connected(p) {
+				// rejected again as soon as the writer's entity disappears - right away, and after the entity is
+				// announced again without a new binding
+				if rng.Intn(2) == 0 && x.exec(g.writeAs(p, dropped.client, dropped.server)) {
+					x.st.writeAfterFull++
+				}
+				if rng.Intn(2) == 0 {
+					if rng.Intn(2) == 0 {
+						x.exec(fmt.Sprintf("entadd %d %s %d %d", p, dispEntOf(dropped.client), g.next(), g.ack()))
+					} else {
+						x.exec(fmt.Sprintf("full %d %s %d %d", p, "0,"+strings.Join(dispRemEnts, ","), g.next(), g.ack()))
+					}
+					if x.w.connected(p) && x.exec(g.writeAs(p, dropped.client, dropped.server)) {
+						x.st.writeAfterFull++
+					}
+				}
+			}
+		case c < wShare+44:
 			// delete a subscription (mostly one that exists), now and then right after a re-announcement
 			var own []dispPair
 			for pr := range x.spec.subs {
@@ -2371,7 +2619,8 @@ func TestDispatch(t *testing.T) {
 	}
 
 	// ---- corpus: the witnesses (each known finding is reproduced on every run), then past failures
-	for _, ops := range [][]string{dispWitnessResult(), dispWitnessUnbind(), dispWitnessEntity(), dispWitnessDrop(), dispWitnessPrefix(), dispWitnessReann()} {
+	for _, ops := range [][]string{dispWitnessResult(), dispWitnessUnbind(), dispWitnessEntity(), dispWitnessDrop(), dispWitnessPrefix(), dispWitnessReann(), dispWitnessFull(),
+		dispWitnessFunctionElement(), dispWitnessReconnect()} {
 		env.runOps(r, ops, true)
 	}
 
@@ -2447,6 +2696,11 @@ func TestDispatch(t *testing.T) {
 	}
 	r.Info["re-announcements"] = map[string]int{"total": st.reanns, "before_an_unbind_of_a_held_binding": st.unbindAfterReann, "writes_right_after_unbind": st.writeAfterUnbind,
 		"writes_from_parent_or_sub_entity_of_a_bound_feature": st.writesFromRelative, "subscriptions_deleted": st.unsubsOK}
+	r.Info["full_notifications"] = map[string]int{"total": st.fulls, "replacing_an_entity": st.fullsReplace, "writes_from_a_dropped_holder": st.writeAfterFull}
+	r.Info["writes_with_inconsistent_function_element"] = st.writesFeInconsistent
+	r.Floor("full notifications that replace an entity (per 1000 steps)", st.fullsReplace*1000, r.Evaluations, 2)
+	r.Floor("writes from a holder a full notification dropped (per 1000 writes)", st.writeAfterFull*1000, st.writes, 5)
+	r.Floor("writes with an inconsistent function element (per 1000 writes)", st.writesFeInconsistent*1000, st.writes, 30)
 	r.Floor("re-announcement before unbind (per 1000 unbinds)", st.unbindAfterReann*1000, st.unbinds, 40)
 	r.Floor("write right after unbind (per 1000 unbinds)", st.writeAfterUnbind*1000, st.unbinds, 80)
 	r.Floor("writes from the parent / sub-entity feature of a bound one (per 1000 writes)", st.writesFromRelative*1000, st.writes, 10)
